@@ -351,7 +351,7 @@ class C05:
                 finally:
                     if armed is not None:
                         fired, _ = asyncexc.disarm()
-                        gc.enable()
+                        pass  # (the runner keeps the cyclic collector off for the whole run: sim/runner.py _fresh)
                         armed = None
                         if fired is not None:
                             sim.count("fault.ctrl_c_between_bytecodes_of_a_call")
